@@ -90,6 +90,9 @@ func (e *enc) callCommon(b *ssa.BasicBlock, ins ssa.Instruction, cc *ssa.CallCom
 	for _, a := range cc.Args {
 		t := e.val(a)
 		args = append(args, t)
+		if _, isBuiltin := cc.Value.(*ssa.Builtin); !isBuiltin {
+			e.escapeObl(ins, R, a, "passed")
+		}
 		switch e.sortOf(a.Type()) {
 		case "Ref":
 			e.curCallRefs = append(e.curCallRefs, t)
